@@ -35,13 +35,18 @@ type hvh struct {
 // (judged by the reference predicates) and what it emitted.
 type nodeMon struct {
 	// inputs judged by the reference
-	proposals map[hvh]bool                // proposal (h,v,hash) signed by leader(v) delivered (standalone or inside NEW_VIEW), or own
-	validNV   map[hv]map[string]bool      // (h,v) -> hashes proposed by a reference-valid NEW_VIEW delivered; value: needs consumer validation
-	prepares  map[hvh]map[string]bool     // authentic PREPARE senders
-	commits   map[hvh]map[string]bool     // authentic COMMIT senders (valid share)
-	votes     map[hv]map[string]*ref.Vote // authentic votes addressed to this node
-	validated map[string]bool             // hashes this node's ValidateBlockProposal approved
-	barePP    map[hvh]bool                // authentic standalone PREPREPARE of leader(v), v>0, delivered
+	proposals map[hvh]bool                 // proposal (h,v,hash) signed by leader(v) delivered (standalone or inside NEW_VIEW), or own
+	validNV   map[hv]map[string]bool       // (h,v) -> hashes proposed by a reference-valid NEW_VIEW delivered; value: needs consumer validation
+	prepares  map[hvh]map[string]bool      // authentic PREPARE senders
+	commits   map[hvh]map[string]bool      // authentic COMMIT senders (valid share)
+	votes     map[hv]map[string]*ref.Vote  // authentic votes addressed to this node
+	validated map[string]bool              // hashes this node's ValidateBlockProposal approved
+	barePP    map[hvh]bool                 // authentic standalone PREPREPARE of leader(v), v>0, delivered
+	storedPP  map[hv]string                // proposal the node stored per (h,v)
+	storedP   map[hvh]map[string]bool      // PREPARE senders the node stored (its own included)
+	heldCert  map[uint64]map[uint64]string // h -> view -> hash: the node held a prepared certificate (stored proposal + stored PREPAREs reaching quorum with the leader) while in that view
+	ignoredNV map[uint64]uint64            // h -> highest view of a delivered NEW_VIEW that the reference says must be ignored
+	electedAt map[hv]bool                  // the node sent a NEW_VIEW as leader of (h,v)
 	// outputs
 	sentPP   map[hv]string
 	sentP    map[hv]string
@@ -57,7 +62,7 @@ type nodeMon struct {
 
 func newNodeMon() *nodeMon {
 	return &nodeMon{proposals: map[hvh]bool{}, validNV: map[hv]map[string]bool{}, prepares: map[hvh]map[string]bool{}, commits: map[hvh]map[string]bool{},
-		votes: map[hv]map[string]*ref.Vote{}, validated: map[string]bool{}, barePP: map[hvh]bool{}, sentPP: map[hv]string{}, sentP: map[hv]string{}, sentC: map[hv]string{}, lastVC: map[uint64]int64{},
+		votes: map[hv]map[string]*ref.Vote{}, validated: map[string]bool{}, barePP: map[hvh]bool{}, storedPP: map[hv]string{}, storedP: map[hvh]map[string]bool{}, heldCert: map[uint64]map[uint64]string{}, ignoredNV: map[uint64]uint64{}, electedAt: map[hv]bool{}, sentPP: map[hv]string{}, sentP: map[hv]string{}, sentC: map[hv]string{}, lastVC: map[uint64]int64{},
 		storedVC: map[hv]map[string]*interfaces.ViewChangeMessage{}, lastCommitH: -1, lastRoundH: -1}
 }
 
@@ -337,6 +342,11 @@ func (m *Monitors) PostDelivery(d *deliveryCtx, effects []spi.Event, panicked bo
 	m.Stats["C08 deliveries judged"]++
 	if d.mustIgn != "" {
 		m.Stats["C08 must-ignore deliveries"]++
+		if msg.Env == ref.EnvNV && msg.H == d.pre.H {
+			if msg.V > nm0(m, n).ignoredNV[msg.H] {
+				nm0(m, n).ignoredNV[msg.H] = msg.V
+			}
+		}
 		for i := range effects {
 			e := &effects[i]
 			if e.Node == n.Id && isEffect(e) {
@@ -353,7 +363,14 @@ func (m *Monitors) PostDelivery(d *deliveryCtx, effects []spi.Event, panicked bo
 	if f.Honest && m.JudgeC11 && m.w.IsCorrect(f.From) && d.pre.H == msg.H && d.inComm {
 		m.judgeC11(d, effects)
 	}
+	// ---- election completeness: a leader that now holds stored votes of quorum weight for a view it has not passed
+	// becomes leader (sends its NEW_VIEW), unless it already did or already adopted a valid NEW_VIEW of that or a higher view
+	if msg.Env == ref.EnvVC && d.mustIgn == "" && d.pre.H == msg.H && d.inComm && !panicked {
+		m.judgeElection(d, effects)
+	}
 }
+
+func nm0(m *Monitors, n *Node) *nodeMon { return m.node(n.Id) }
 
 func ruleKey(s string) string {
 	for i := 0; i < len(s); i++ {
@@ -519,6 +536,12 @@ func (m *Monitors) OnEvent(e *spi.Event) {
 		}
 		nm.lastRoundH = int64(e.H)
 	case spi.EvValidate:
+		if m.cur != nil && m.cur.f != nil && m.cur.f.Msg != nil && m.cur.f.Msg.H == e.H && (m.cur.f.Msg.Env == ref.EnvPP || m.cur.f.Msg.Env == ref.EnvNV) && string(m.cur.f.Msg.Hash) == e.Hash {
+			m.Stats["C18 proposer ids judged"]++
+			if want := w.Comm(e.H).Leader(m.cur.f.Msg.V); e.Sender != want {
+				m.violate("C18", "wrong-proposer-reported-to-the-validator", "node %s asked ValidateBlockProposal about the proposal of h=%d v=%d naming %q as its proposer; the leader of that view (position v mod n) is %s", n.Id, e.H, m.cur.f.Msg.V, e.Sender, want)
+			}
+		}
 		if e.Ok {
 			nm.validated[e.Hash] = true
 			if w.Comm(e.H).Has(n.Id) {
@@ -738,6 +761,30 @@ func (m *Monitors) judgeC04(n *Node, e *spi.Event) {
 
 func (m *Monitors) onStore(n *Node, nm *nodeMon, e *spi.Event) {
 	w := m.w
+	// what the node itself recorded (Storage SPI): basis of "holds a prepared certificate"
+	if e.Ok && (e.Kind == spi.EvStorePP || e.Kind == spi.EvStoreP) {
+		if e.Kind == spi.EvStorePP {
+			nm.storedPP[hv{e.H, e.V}] = e.Hash
+		} else {
+			k := hvh{e.H, e.V, e.Hash}
+			if nm.storedP[k] == nil {
+				nm.storedP[k] = map[string]bool{}
+			}
+			nm.storedP[k][e.Sender] = true
+		}
+		// (a leader storing its own proposal evaluates nothing: "prepared" is evaluated when a PREPARE or a leader's proposal
+		// arrives — a leader whose own weight reaches the quorum is the recorded C05 finding, not a lock it must carry)
+		ownProposal := e.Kind == spi.EvStorePP && e.Sender == n.Id
+		if hash, ok := nm.storedPP[hv{e.H, e.V}]; ok && !ownProposal && uint64(n.St.Height()) == e.H && uint64(n.St.View()) == e.V {
+			c := w.Comm(e.H)
+			if weightOK(c, nm.storedP[hvh{e.H, e.V, hash}], c.Leader(e.V)) {
+				if nm.heldCert[e.H] == nil {
+					nm.heldCert[e.H] = map[uint64]string{}
+				}
+				nm.heldCert[e.H][e.V] = hash
+			}
+		}
+	}
 	if e.Sender == n.Id {
 		// own message
 		if e.Kind == spi.EvStoreVC && e.Ok {
@@ -854,6 +901,10 @@ func (m *Monitors) onSendEvent(n *Node, nm *nodeMon, e *spi.Event) {
 	}
 	m.Stats["sent "+msg.Env.String()]++
 	c := w.Comm(msg.H)
+	if !c.Has(n.Id) {
+		m.violate("C07", "acted-while-outside-the-committee", "node %s is not a member of the committee of height %d but sent %s (view %d)", n.Id, msg.H, msg.Env, msg.V)
+		m.violate("C17", "node-outside-the-committee-took-part", "node %s is not a member of the committee of height %d but sent %s (view %d): messages of that height reached a term", n.Id, msg.H, msg.Env, msg.V)
+	}
 	k := hv{msg.H, msg.V}
 	key := hvh{msg.H, msg.V, string(msg.Hash)}
 	curV := uint64(n.St.View())
@@ -889,6 +940,7 @@ func (m *Monitors) onSendEvent(n *Node, nm *nodeMon, e *spi.Event) {
 			m.violate("C10", "proposal-for-old-view", "node %s in view %d sent NEW_VIEW for view %d", n.Id, curV, msg.V)
 		}
 		nm.proposals[key] = true
+		nm.electedAt[k] = true
 		m.judgeOwnNewView(n, nm, msg)
 	case ref.EnvP:
 		m.Stats["C10 prepares judged"]++
@@ -959,6 +1011,12 @@ func (m *Monitors) judgeOwnViewChange(n *Node, nm *nodeMon, msg *ref.Msg) {
 			if nm.proposals[key] && weightOK(c, nm.prepares[key], c.Leader(k.V)) {
 				best, bestHash = int64(k.V), hash
 			}
+		}
+	}
+	// ... or, by its own storage, it held a prepared certificate while it was in that view
+	for v, hash := range nm.heldCert[msg.H] {
+		if v < msg.V && int64(v) > best {
+			best, bestHash = int64(v), hash
 		}
 	}
 	p := msg.Vote.Proof
@@ -1129,4 +1187,43 @@ func (m *Monitors) multiView() bool {
 		}
 	}
 	return false
+}
+
+func (m *Monitors) judgeElection(d *deliveryCtx, effects []spi.Event) {
+	n, msg := d.n, d.f.Msg
+	nm := m.node(n.Id)
+	c := m.w.Comm(msg.H)
+	k := hv{msg.H, msg.V}
+	if c.Leader(msg.V) != n.Id || d.pre.V > msg.V || uint64(n.St.Height()) != msg.H {
+		return
+	}
+	if _, stored := has(effects, n.Id, spi.EvStoreVC, msg.H, msg.V, ""); !stored {
+		return
+	}
+	var ids []string
+	for id := range nm.storedVC[k] {
+		ids = append(ids, id)
+	}
+	if !c.IsQuorum(ids) {
+		return
+	}
+	// already leader of this or a higher view, or follower of a valid NEW_VIEW of this or a higher view
+	for kk := range nm.electedAt {
+		if kk.H == msg.H && kk.V >= msg.V {
+			return
+		}
+	}
+	for kk := range nm.validNV {
+		if kk.H == msg.H && kk.V >= msg.V {
+			if _, acted := nm.storedPP[kk]; acted {
+				return
+			}
+		}
+	}
+	m.Stats["C11 elections judged"]++
+	// a consumer may legitimately be slow / cancelled only in rt; in sim the proposal request returns at once
+	m.violate("C11", "leader-with-quorum-of-votes-not-elected", "node %s holds stored VIEW_CHANGE votes of quorum weight for h=%d v=%d (it is that view's leader, its view was %d) but did not send a NEW_VIEW", n.Id, msg.H, msg.V, d.pre.V)
+	if iv, ok := nm.ignoredNV[msg.H]; ok && iv >= msg.V {
+		m.violate("C08", "must-ignore-new-view-suppressed-a-later-election", "node %s was earlier sent a NEW_VIEW for view %d that must be ignored; now its own election for view %d (authentic votes of quorum weight) does not happen", n.Id, iv, msg.V)
+	}
 }
